@@ -34,6 +34,27 @@ def specJ (r : SpecAxes) (len : Nat) : Json :=
   Json.mkObj [("nperseg", intJ r.nperseg), ("noverlap", intJ r.noverlap), ("len", natJ len),
     ("time", axisJ r.time), ("freq", axisJ r.freq)]
 
+/-- one step of a session (see `SE.Audio.Step`) -/
+def getStep (j : Json) : Except String Step := do
+  match ← fldStr j "k" with
+  | "load_clip" => return .loadClip (← fldRat j "s") (← fldRat j "e")
+  | "load_recording" => return .loadRecording
+  | "resample" => return .resample (← fldNat j "src") (← fldNat j "target")
+  | "spectrogram" =>
+    let padded := match fldOpt j "padded" with | some (Json.bool b) => b | _ => true
+    let ext := match fldOpt j "ext" with | some (Json.bool b) => b | _ => true
+    return .spectrogram (← fldNat j "src") (← fldRat j "w") (← fldRat j "h") padded ext
+  | "slice" => return .slice (← fldNat j "src") (← fldNat j "a") (← fldNat j "b")
+  | "look" | "copy" => return .look (← fldNat j "src")
+  | k => .error s!"session: unknown step {k}"
+
+def svalJ : Except AErr SVal → Json
+  | .error e => errJ e
+  | .ok (.audio a) => valJ (Json.mkObj [("kind", Json.str "audio"), ("coords", ratsJ a.coords), ("step", ratJ a.step),
+      ("exact", boolJ a.exact), ("truthful", boolJ (SVal.truthful (.audio a)))])
+  | .ok (.spec r) => valJ (Json.mkObj [("kind", Json.str "spec"), ("nperseg", intJ r.nperseg), ("noverlap", intJ r.noverlap),
+      ("time", axisJ r.time), ("freq", axisJ r.freq), ("truthful", boolJ (SVal.truthful (.spec r)))])
+
 def handle (op : String) (a : Json) : Except String Json := do
   match op with
   | "load_clip" =>
@@ -99,6 +120,21 @@ def handle (op : String) (a : Json) : Except String Json := do
     let (q1, q2) := resamplePlanTuple s (1 / sr) e
     return valJ (Json.mkObj [("clip", ratsJ [c1, c2, c3, c4, c5, c6]), ("recording", ratsJ [r1, r2, r3, r4]),
       ("stft", ratsJ [p1, p2, p3, p4, p5, p6]), ("resample", ratsJ [q1, q2])])
+  | "spectrogram_opt" =>
+    -- `compute_spectrogram(..., padded=…, boundary=…)`: `ext` = the boundary is one of the extensions (not None)
+    match stftAxesOpt (← fldBool a "padded") (← fldBool a "ext") (← fldNat a "len") (← fldRat a "t0")
+        (← fldRat a "step") (← fldRat a "w") (← fldRat a "h") with
+    | .ok r => return valJ (specJ r (← fldNat a "len"))
+    | .error e => return errJ e
+  | "session" =>
+    -- several arrays derived from one another in one process (`runSession`)
+    let (file, ch) ← getFile (← fld a "file")
+    let S : Source := ⟨file, ch, ← fldNat a "sr", ← fldRat a "duration"⟩
+    let steps ← (← fldArr a "steps").mapM getStep
+    return valJ (arrJ ((runSession S steps).map svalJ))
+  | "signatures" =>
+    return valJ (arrJ (signatures.map fun (fn, ps) =>
+      Json.mkObj [("fn", Json.str fn), ("params", arrJ (ps.map fun (n, d) => arrJ [Json.str n, Json.str d]))]))
   | "holds_axis" =>
     let ax : Axis := ⟨← getRatList (← fld a "coords"), ← fldRat a "step"⟩
     return boolJ (axisOk (← fldRat a "first") ax)
